@@ -77,7 +77,7 @@ def gen_history(rng, tree, R, abs_sentinel, n_ops, k=0):
            b'..\x00', b'reldir/inner', A + b'/a']
     ops = []; ni = 1; nh = 0
     def nm(): return rng.choice(inside_names) if rng.random() < 0.7 else rng.choice(adv)
-    def islot(): return rng.randrange(ni) if rng.random() < 0.9 else ('raw', rng.choice([0, 1, 2, 3, 999, 2 ** 56 + 1]))
+    def islot(): return rng.randrange(ni) if rng.random() < 0.9 else ('raw', rng.choice([0, 1, 999, 2 ** 55 + 1]))
     def hslot(): return rng.randrange(nh) if nh and rng.random() < 0.95 else ('raw', rng.choice([0, 1, 7]))
     # a warm-up that makes the interesting inodes known
     for n in [b'd', b'f', b'rel', b'abs', b'reldir', b'up']:
